@@ -105,10 +105,11 @@ func c08MapOrders(c *RunCtx, item *int) {
 	type target struct {
 		text    string
 		msiOnly bool
+		cores   int // > 0: only the MSI configurations with exactly that many cores
 	}
 	var targets []target
 	for _, t := range c08Targets(n) {
-		targets = append(targets, target{t, false})
+		targets = append(targets, target{t, false, 0})
 	}
 	// several cores sharing one line (directory maps with several entries per line): MSI variants only
 	sameLine := []string{"lw t0, 0(zero)", "lw t1, 4(zero)", "lw t2, 8(zero)", "sw t0, 12(zero)"}
@@ -122,7 +123,7 @@ func c08MapOrders(c *RunCtx, item *int) {
 			for _, i := range idx {
 				b = append(b, sameLine[i])
 			}
-			targets = append(targets, target{lines(strings.Join(b, "\n"), "end:", post), true})
+			targets = append(targets, target{lines(strings.Join(b, "\n"), "end:", post), true, 0})
 		})
 	}
 	// one core owning two lines that two other cores want at the same time: 3 and 4 cores only
@@ -142,9 +143,27 @@ func c08MapOrders(c *RunCtx, item *int) {
 			return
 		}
 		nTwo++
-		targets = append(targets, target{lines(strings.Join(b, "\n"), "end:", post), true})
+		targets = append(targets, target{lines(strings.Join(b, "\n"), "end:", post), true, 0})
 	})
 	twoLineFrom := len(targets) - nTwo
+	// two cores sharing a line while one of them is busy with another line: a
+	// further load of the shared line can go to either holder (2 cores only)
+	// (the control unit learns who holds a line only when the fetch has completed,
+	// so the loads under test are held back by a register dependence)
+	busy := []string{"lw t0, 0(zero)", "lw t1, 4(zero)", "lw t2, 256(zero)", "add t3, t0, t1"}
+	maxBusy := 2
+	if c.Thorough() {
+		maxBusy = 3
+	}
+	for k := 2; k <= maxBusy; k++ {
+		seqs(len(busy), k, func(idx []int) {
+			b := []string{"lw t0, 0(zero)", "lw t1, 4(zero)", "add t3, t0, t1"}
+			for _, i := range idx {
+				b = append(b, busy[i])
+			}
+			targets = append(targets, target{lines(strings.Join(b, "\n"), "end:", post), true, 2})
+		})
+	}
 	for ti, tg := range targets {
 		text := tg.text
 		ref := refRun(text, in)
@@ -153,10 +172,14 @@ func c08MapOrders(c *RunCtx, item *int) {
 		}
 		for ci := range pxConfigs {
 			cfg := &pxConfigs[ci]
-			if tg.msiOnly && ti < twoLineFrom && (famOrder[cfg.Fam] < 10 || cfg.P < 2 || (!c.Thorough() && cfg.P > 3)) {
+			if tg.cores > 0 {
+				if famOrder[cfg.Fam] < 10 || cfg.P != tg.cores {
+					continue
+				}
+			} else if tg.msiOnly && ti < twoLineFrom && (famOrder[cfg.Fam] < 10 || cfg.P < 2 || (!c.Thorough() && cfg.P > 3)) {
 				continue
 			}
-			if tg.msiOnly && ti >= twoLineFrom && (famOrder[cfg.Fam] < 10 || cfg.P < 3) {
+			if tg.cores == 0 && tg.msiOnly && ti >= twoLineFrom && (famOrder[cfg.Fam] < 10 || cfg.P < 3) {
 				continue
 			}
 			*item++
@@ -878,7 +901,7 @@ func init() {
 			c08Histories(c, &item)
 			c08Dual(c, &item)
 			c08RigOrders(c, &item)
-			c.Sum.Rule = "(i) PX with deviations: 57 target programs (all sequences of length <= 2 over {sw, sb, lw x2, addi x2 (WAW pair), bne} + epilogue) x 33 configurations, plus same-line programs (all sequences of length 3 (quick: 64) / 3..4 (thorough: 320) over three loads and a store to one line) x the MSI configurations with 2..3 (quick) / 2..4 cores, plus two-line programs (length 4 over stores and loads to lines 0 and 64; quick: the 50 that begin with a store to each line, thorough: all 625) x the MSI configurations with 3 and 4 cores: default execution (canonical map orders) vs every execution deviating at <= 1 map-range choice point (thorough: <= 2 for the programs of length <= 1) (all n! orders for maps with <= 3 (quick) / 4 keys, transpositions + rotations + reversal beyond); (ii) comp.Queue.Iterator and ds.StableMapIteration driven by consumers that remove subsets, abandon early and push after abandoning, under a cooperative scheduler with unbounded preemptions, every interleaving; (iii) for every ordered pair (X, Y) of 13 (quick) / 33 short programs (incl. a store and a load beyond the end of memory), and of the 8 programs of the loop-entered-in-the-middle family (exit branch fed by a missing load, next iteration speculated and flushed), and every configuration: Y after X, Y on a machine built while X's is alive, Y twice on one parsed Application, all equal to Y alone in a fresh OS process; (iv) two machines interleaved at cycle boundaries, every schedule with <= 1 preemption, separate and shared parsed programs, each machine compared with its solo run; (v) on the MSI protocol rig: from every quiescent state of 3 cores x 2 lines, two requests from different cores to different lines issued in the same cycle, default map orders vs every single deviation inside the controllers / directory: completion cycles, data read and final state identical; oracle = bit-identical (cycles, registers, memory); non-trivial = (program, configuration) pairs with at least one multi-key map range, harnesses with more than one schedule, Y programs with at least one comparable history, and schedules with a preemption"
+			c.Sum.Rule = "(i) PX with deviations: 57 target programs (all sequences of length <= 2 over {sw, sb, lw x2, addi x2 (WAW pair), bne} + epilogue) x 33 configurations, plus same-line programs (all sequences of length 3 (quick: 64) / 3..4 (thorough: 320) over three loads and a store to one line) x the MSI configurations with 2..3 (quick) / 2..4 cores, plus two-line programs (length 4 over stores and loads to lines 0 and 64; quick: the 50 that begin with a store to each line, thorough: all 625) x the MSI configurations with 3 and 4 cores, plus busy-holder programs (two loads of one line and a dependent add, then every sequence of length 2 (quick) / 2..3 (thorough) over {the two loads, a load of another line, the add}) x the MSI configurations with 2 cores: default execution (canonical map orders) vs every execution deviating at <= 1 map-range choice point (thorough: <= 2 for the programs of length <= 1) (all n! orders for maps with <= 3 (quick) / 4 keys, transpositions + rotations + reversal beyond); (ii) comp.Queue.Iterator and ds.StableMapIteration driven by consumers that remove subsets, abandon early and push after abandoning, under a cooperative scheduler with unbounded preemptions, every interleaving; (iii) for every ordered pair (X, Y) of 13 (quick) / 33 short programs (incl. a store and a load beyond the end of memory), and of the 8 programs of the loop-entered-in-the-middle family (exit branch fed by a missing load, next iteration speculated and flushed), and every configuration: Y after X, Y on a machine built while X's is alive, Y twice on one parsed Application, all equal to Y alone in a fresh OS process; (iv) two machines interleaved at cycle boundaries, every schedule with <= 1 preemption, separate and shared parsed programs, each machine compared with its solo run; (v) on the MSI protocol rig: from every quiescent state of 3 cores x 2 lines, two requests from different cores to different lines issued in the same cycle, default map orders vs every single deviation inside the controllers / directory: completion cycles, data read and final state identical; oracle = bit-identical (cycles, registers, memory); non-trivial = (program, configuration) pairs with at least one multi-key map range, harnesses with more than one schedule, Y programs with at least one comparable history, and schedules with a preemption"
 			c.Assume("the Go memory model is not explored: scheduling points are channel operations, iterator loop heads and cycle boundaries")
 		},
 		Replay: c08Replay,
